@@ -67,7 +67,8 @@ class MG:
     # ------------------------------------------------------------------ reference walker (C)
     def ref_c(s):
         G, Mn = s.G, s.M
-        o = ["struct geo_%s {" % Mn, "  u64 rbl, end; int ok;"]
+        o = ["#ifndef REF_SHRINK_DEFINED\n#define REF_SHRINK_DEFINED\nstatic u64 ref_shrink = 0;   /* C10: wire block lengths may be SHORTER than the compiled ones by up to this many bytes (hostile / older-version sender) */\n#endif",
+             "struct geo_%s {" % Mn, "  u64 rbl, end; int ok, shrunk;"]
         for (path, g, d) in s.groups:
             n = pn(path); dims = "".join("[%d]" % G for _ in range(d))
             o.append("  u64 %s_hdr%s, %s_bl%s, %s_n%s, %s_ent%s[%d], %s_eend%s[%d], %s_end%s;" % (n, dims, n, dims, n, dims, n, dims, G, n, dims, G, n, dims))
@@ -82,7 +83,8 @@ class MG:
         o.append("  const int BE = %d; u64 pos; memset(r, 0, sizeof *r); r->ok = 1;" % s.be)
         o.append("  if (n < %d) { r->ok = 0; return; }" % s.HDR)
         o.append("  r->rbl = ref_rd(b + %d, %d, BE);" % (obl, SZ[pbl]))
-        o.append("  if (r->rbl < %d || r->rbl > %d + E) { r->ok = 0; return; }" % (s.msg.block_length, s.msg.block_length))
+        o.append("  if (r->rbl + ref_shrink < %d || r->rbl > %d + E) { r->ok = 0; return; }" % (s.msg.block_length, s.msg.block_length))
+        o.append("  if (r->rbl < %d) r->shrunk = 1;" % s.msg.block_length)
         o.append("  pos = %d + r->rbl; if (pos > n) { r->ok = 0; return; }" % s.HDR)
         o += s._emit_members(s.msg, (), 0)
         o.append("  r->end = pos;")
@@ -96,7 +98,8 @@ class MG:
             (obl, pbl), (on, pnn) = hf["blockLength"], hf["numInGroup"]
             L += ["  r->%s_hdr%s = pos; if (pos + %d > n) { r->ok = 0; return; }" % (n, ix, dsz),
                   "  r->%s_bl%s = ref_rd(b + pos + %d, %d, BE); r->%s_n%s = ref_rd(b + pos + %d, %d, BE);" % (n, ix, obl, SZ[pbl], n, ix, on, SZ[pnn]),
-                  "  if (r->%s_n%s > %d || r->%s_bl%s < %d || r->%s_bl%s > %d + E) { r->ok = 0; return; }" % (n, ix, G, n, ix, g.block_length, n, ix, g.block_length),
+                  "  if (r->%s_n%s > %d || r->%s_bl%s + ref_shrink < %d || r->%s_bl%s > %d + E) { r->ok = 0; return; }" % (n, ix, G, n, ix, g.block_length, n, ix, g.block_length),
+                  "  if (r->%s_bl%s < %d) r->shrunk = 1;" % (n, ix, g.block_length),
                   "  pos += %d;" % dsz,
                   "  for (unsigned i%d = 0; i%d < %d; i%d++) if (i%d < r->%s_n%s) {" % (d, d, G, d, d, n, ix),
                   "    r->%s_ent%s[i%d] = pos; if (pos + r->%s_bl%s > n) { r->ok = 0; return; } pos += r->%s_bl%s;" % (n, ix, d, n, ix, n, ix)]
